@@ -5,6 +5,7 @@
 // No property formula here: TLC (Trace_Symmetries.tla, Trace_MatrixCache.tla) decides.
 //   c03_matrix sym  <out.ndjson> <tier 0|1>
 //   c03_matrix rows <out.ndjson> <tier 0|1> [family-index]
+//   c03_matrix rowops <out.ndjson> <tier 0|1>                 operations on ProjMatrixElemsForOneBin rows
 //   c03_matrix count <out.ndjson> <tier 0|1>                  number of families of the rows mode
 #include "c03_matrix_common.h"
 #include <map>
@@ -46,6 +47,11 @@ static void sym_config(vh::Trace& tr, const DataCfg& d, const GridCfg& g, bool p
       ax.push_back(l);
     }
     j.arr2("axial", ax);
+    // azimuthal angle of every view in units of pi / (detectors per ring) (x 2^10): shows the offset that view mashing adds
+    std::vector<long long> phis;
+    for (int v = pdi->get_min_view_num(); v <= pdi->get_max_view_num(); ++v)
+      phis.push_back(vh::fx(cyl.get_phi(Bin(0, v, 0, 0)) / (3.14159265358979323846 / pdi->get_scanner_ptr()->get_num_detectors_per_ring()), 10));
+    j.arr("phiQ", phis);
     j.boolean("perBin", per_bin);
     tr.emit(j);
     if (!per_bin) continue;
@@ -112,6 +118,7 @@ struct Family {
   std::vector<GeomSpec> geoms;     // gid = index + 1; a geometry flagged `bad` must be refused by set_up
   int quick_masks;                 // quick tier: number of requested switch settings with a history (thorough: all 32)
   int passes;                      // number of full passes (1 or 2)
+  bool all_mode = true;            // false: the "cache every row" mode is left out (block geometry, see notes/C03.md)
 };
 
 // matrix object of either class behind the ProjMatrixByBin interface
@@ -225,7 +232,7 @@ struct Recorder {
     const bool err = vh::threw([&] { o.m->get_proj_matrix_elems_for_one_bin(row, b); });
     auto ev = HookLog::get().stop();
     vh::Json j("Get");
-    j.arr("b", bin_list(b)).arr2("hooks", ev).boolean("err", err);
+    j.arr("b", bin_list(b)).arr2("hooks", ev).boolean("err", err).arr("rb", bin_list(row.get_bin()));
     if (err) j.raw("row", "[]"); else j.raw("row", row_json(row));
     auto it = ref_line[o.gid - 1].find(bin_list(b));
     j.num("ref", it == ref_line[o.gid - 1].end() ? 0 : it->second);
@@ -312,7 +319,7 @@ struct Recorder {
         if (ref_line[o.gid - 1].count(bin_list(b))) get(o, b);
       } else if (r < 84) clear(o);
       else if (r < 87) enable_cache(o, !o.cache_on);
-      else if (r < 90) store_basic(o, !o.basic_only);
+      else if (r < 90) { if (f.all_mode) store_basic(o, !o.basic_only); }
       else if (r < 95) {
         // same (skipped) or another geometry; a geometry the class documents as unsupported must be refused,
         // after which the object is set up properly again before it is used
@@ -385,6 +392,13 @@ static std::vector<Family> families(int tier) {
                                    { D(16, 3, 3, 1, 1, 0, 0, 5), G(9, 9, 5, 3.3F, 3.3F, 2, 0), O(1) } }, 10, 2 });
   }
   {
+    // block geometry, 2 crystals per axial block (actual detector positions are forced; shift_z is the only symmetry);
+    // second geometry: 3 crystals per block with a gap between the blocks
+    DataCfg d = D(8, 6, 1, 5, 1, 0, 0, 3); d.geom = "BlocksOnCylindrical"; d.cpb = 2;
+    DataCfg e = d; e.cpb = 3; e.axial_gap = 1.F;
+    fs.push_back({ "blocks", RT, { { d, G(17, 17, 11, 3.F, 3.F, 2, 0), O(1, true) }, { e, G(17, 17, 11, 3.F, 3.F, 2, 0), O(1, true) } }, 8, 2, false });
+  }
+  {
     // ProjMatrixByBinFromFile: written by the library's writer from a ray-tracing matrix, read back (non-TOF only)
     DataCfg d = D(12, 3, 1, 2, 1, 0, 0, 6);
     fs.push_back({ "fromfile", "FromFile", { { d, G(11, 11, 5, 3.6F, 3.6F, 2, 0), O(1) }, { d, G(10, 10, 5, 3.6F, 3.6F, 2, 0), O(2) } }, 6, 0 });
@@ -433,17 +447,63 @@ static void run_rows(vh::Trace& tr, int tier, int only, vh::Rng& rng, const std:
     }
     // every bin of the first two geometries under the default setting of the class and with everything cached
     maybe_open(); rec.full_pass(f, sw_from_bits(31), true, true, 1);
-    if (f.passes > 1) { maybe_open(); rec.full_pass(f, sw_from_bits(31), true, false, f.geoms.size() > 1 ? 2 : 1); }
+    if (f.passes > 1) { maybe_open(); rec.full_pass(f, sw_from_bits(31), true, !f.all_mode, f.geoms.size() > 1 ? 2 : 1); }
     // requested switch settings x cache disabled / basic bins only / everything
     const int len = tier > 0 ? 110 : 80;
     const int nmask = tier > 0 ? 32 : f.quick_masks;
     for (int k = 0; k < nmask; ++k) {
       // all 32 settings, or a seeded selection that always contains "everything on"
       const int mask = nmask == 32 ? k : (k == 0 ? 31 : frng.range(0, 31));
-      for (int mode = 0; mode < 3; ++mode) {
+      for (int mode = 0; mode < (f.all_mode ? 3 : 2); ++mode) {
         maybe_open();
         rec.history(f, sw_from_bits(mask), mode != 0, mode == 1, len);
       }
+    }
+  }
+}
+
+// ------------------------------------------------------------------------------------------- row operations
+// seeded sequences of operations on two real ProjMatrixElemsForOneBin objects with small integer values; every line
+// carries the operation, the answers of the queries and both rows afterwards (in storage order)
+static std::string row_raw(const ProjMatrixElemsForOneBin& r) {
+  std::string s = "[";
+  bool first = true;
+  for (ProjMatrixElemsForOneBin::const_iterator it = r.begin(); it != r.end(); ++it) {
+    if (!first) s += ',';
+    first = false;
+    s += '[' + std::to_string(it->coord1()) + ',' + std::to_string(it->coord2()) + ',' + std::to_string(it->coord3()) + ',' + std::to_string((long long)std::llround(it->get_value())) + ']';
+  }
+  return s + "]";
+}
+static void run_rowops(vh::Trace& tr, int tier, vh::Rng& rng) {
+  const int runs = tier > 0 ? 400 : 120, len = 40;
+  for (int run = 0; run < runs; ++run) {
+    ProjMatrixElemsForOneBin A, B;
+    auto emit = [&](vh::Json& j) {
+      j.num("sizeA", (long)A.size()).num("sizeB", (long)B.size()).boolean("checkA", A.check_state() == Succeeded::yes)
+          .boolean("checkB", B.check_state() == Succeeded::yes).num("sqA", (long long)std::llround(A.square_sum())).boolean("eq", A == B)
+          .raw("A", row_raw(A)).raw("B", row_raw(B));
+      tr.emit(j);
+    };
+    { vh::Json j("Reset"); emit(j); }
+    const int span = rng.range(1, 3);     // small voxel ranges make coincidences (duplicates, common voxels) frequent
+    auto elem = [&] { return ProjMatrixElemsForOneBin::value_type(Coordinate3D<int>(rng.range(-1, span - 1), rng.range(0, span), rng.range(-span, 0)), (float)rng.range(1, 9)); };
+    for (int i = 0; i < len; ++i) {
+      const int r = rng.range(0, 99);
+      if (r < 30) { auto e = elem(); A.push_back(e); vh::Json j("PushA"); j.arr("el", std::vector<long long>{ e.coord1(), e.coord2(), e.coord3(), (long long)e.get_value() }); emit(j); }
+      else if (r < 55) { auto e = elem(); B.push_back(e); vh::Json j("PushB"); j.arr("el", std::vector<long long>{ e.coord1(), e.coord2(), e.coord3(), (long long)e.get_value() }); emit(j); }
+      else if (r < 63) { A.sort(); vh::Json j("SortA"); emit(j); }
+      else if (r < 68) { B.sort(); vh::Json j("SortB"); emit(j); }
+      else if (r < 84) {
+        // merge needs rows in which every voxel occurs once (check_state is the library's own test of that)
+        if (A.check_state() == Succeeded::yes && B.check_state() == Succeeded::yes) { A.merge(B); vh::Json j("MergeAB"); emit(j); }
+        else if (A.size() > 0) { const int k = rng.range(1, (int)A.size()); A.erase(A.begin() + (k - 1)); vh::Json j("EraseAtA"); j.num("i", k); emit(j); }
+      }
+      else if (r < 88) { if (A.size() > 0) { const int k = rng.range(1, (int)A.size()); A.erase(A.begin() + (k - 1)); vh::Json j("EraseAtA"); j.num("i", k); emit(j); } }
+      else if (r < 91) { const int d = rng.range(1, 3); A *= (float)d; vh::Json j("ScaleA"); j.num("d", d); emit(j); A /= (float)d; vh::Json k("DivideA"); k.num("d", d); emit(k); }
+      else if (r < 94) { B = A; vh::Json j("CopyAB"); emit(j); }
+      else if (r < 97) { B.erase(); vh::Json j("EraseB"); emit(j); }
+      else { A.erase(); vh::Json j("EraseA"); emit(j); }
     }
   }
 }
@@ -464,6 +524,7 @@ int main(int argc, char** argv) {
     for (size_t i = slash == std::string::npos ? 0 : slash + 1; i < scratch.size(); ++i) if (scratch[i] == '.') scratch[i] = '_';
     run_rows(tr, tier, argc > 4 ? atoi(argv[4]) : -1, rng, scratch);
   }
+  else if (mode == "rowops") run_rowops(tr, tier, rng);
   else if (mode == "count") tr.emit(vh::Json("Count").num("families", (long)families(tier).size()));
   else return 2;
   return 0;
